@@ -269,7 +269,17 @@ class Interp:
             if "loop_frames_leak_into_isolated_template" in self.sw:
                 for fr in reversed(env):
                     if fr[0].split(":")[-1] in ("for", "leak") and fr[2] is not None:
-                        tenv = (("leak", fr[1], fr[2]),)
+                        if any(fr is c for c in self.captured):
+                            # inside fill content the "innermost loop layer" is the single merged layer that was
+                            # captured for the fill: every enclosing loop layer plus everything bound between the
+                            # component tag and the fill
+                            merged = {}
+                            for c in self.captured:
+                                if c[2] is not None:
+                                    merged.update(c[2])
+                            tenv = (("leak", fr[1], merged),)
+                        else:
+                            tenv = (("leak", fr[1], fr[2]),)
                         break
             tenv = tenv + (data_fr,)
         else:
@@ -352,7 +362,7 @@ class Interp:
                 inner_data = (inst.tenv[-1],)
                 around_slot = tuple(("unspec-inner:" + fr[0].split(":")[-1], fr[1], fr[2]) for fr in env[len(inst.tenv):])
                 fenv = c.def_env + c.between + inner_data + around_slot + (alias_fr,)
-            cap = list(c.between) + [fr for fr in c.def_env if fr[0].split(":")[-1] in ("for", "leak")]
+            cap = [fr for fr in c.def_env if fr[0].split(":")[-1] in ("for", "leak")] + list(c.between)
             self.captured.extend(cap)
             try:
                 return self.eval(c.body, fenv, c.lex_owner, provs, top, depth, True, slot_stack + ("fill",))
